@@ -21,23 +21,33 @@ import (
 )
 
 type Job struct {
-	Id         string  `json:"id"`
-	Text       string  `json:"text"`
-	Mode       string  `json:"mode"` // async | sync | np
-	Typecheck  bool    `json:"typecheck"`
-	Execute    bool    `json:"execute"`
-	Monitor    bool    `json:"monitor"`
-	Subscriber bool    `json:"subscriber"` // attach a subscriber (as the web front end does) whose consumers serialise every snapshot the monitor publishes
-	Procs      int     `json:"gomaxprocs"`
-	Seed       int64   `json:"seed"`
-	Yield      float64 `json:"yield"`
-	Sched      [][]int `json:"sched"`
-	Trace      bool    `json:"trace"`
-	Dump       bool    `json:"dump"`
-	GraceMs    int     `json:"grace_ms"`
-	PostCalls  bool    `json:"post_calls"`
-	MaxMs      int     `json:"max_ms"`     // give up on a run that has not reached quiescence after this long (0 = 8000)
-	MaxEvents  int     `json:"max_events"` // stop recording after this many events (0 = 30000)
+	Id         string     `json:"id"`
+	Text       string     `json:"text"`
+	Mode       string     `json:"mode"` // async | sync | np
+	Typecheck  bool       `json:"typecheck"`
+	Execute    bool       `json:"execute"`
+	Monitor    bool       `json:"monitor"`
+	Subscriber bool       `json:"subscriber"` // attach a subscriber (as the web front end does) whose consumers serialise every snapshot the monitor publishes
+	Procs      int        `json:"gomaxprocs"`
+	Seed       int64      `json:"seed"`
+	Yield      float64    `json:"yield"`
+	Sched      [][]int    `json:"sched"`
+	Plan       []PlanStep `json:"plan"` // gate replay of a behaviour of the specification: per action the processes to release and those that must finish
+	Trace      bool       `json:"trace"`
+	Dump       bool       `json:"dump"`
+	GraceMs    int        `json:"grace_ms"`
+	PostCalls  bool       `json:"post_calls"`
+	MaxMs      int        `json:"max_ms"`     // give up on a run that has not reached quiescence after this long (0 = 8000)
+	MaxEvents  int        `json:"max_events"` // stop recording after this many events (0 = 30000)
+}
+
+// PlanStep is one action of a behaviour of GritsRT / GritsNP: Rel = processes to let through the gate (parked participants of the
+// action), Done = processes that log an "at" (are parked at their next gate, or at their first one if just spawned) or an "end".
+type PlanStep struct {
+	Rel  [][]int `json:"rel"`
+	Done [][]int `json:"done"`
+	Ends [][]int `json:"ends"` // the members of Done that end
+	Fail bool    `json:"fail"` // the action is a run-time error of the first process of Rel (the run is expected to panic)
 }
 
 type Result struct {
@@ -181,7 +191,7 @@ func runJob(j Job) (res Result) {
 	re := &process.RuntimeEnvironment{GlobalEnvironment: genv, UseMonitor: j.Monitor, Color: false,
 		ExecutionVersion: version(j.Mode), Typechecked: j.Typecheck, Delay: 0, Quiet: false}
 	var t *tracer
-	control := len(j.Sched) > 0
+	control := len(j.Sched) > 0 || len(j.Plan) > 0
 	if hooksOn && (j.Trace || control) {
 		t = newTracer(genv, j.Seed, j.Yield, control)
 	}
@@ -239,7 +249,7 @@ func runJob(j Job) (res Result) {
 			process.InitializeProcesses(procs, nil, sub, re)
 			return
 		}
-		res.ReplayDiv, res.ReplayWhy = execTraced(t, re, procs, j.Sched, sub)
+		res.ReplayDiv, res.ReplayWhy = execTraced(t, re, procs, j.Sched, j.Plan, sub)
 	})
 	close(finished)
 	res.Ran = true
